@@ -257,20 +257,23 @@ def fp_lemmas(job):
     tmo = job.get('timeout_s', 120)
     out = []
     tr = fl.Translator(sa)
+    which = job.get('which', (1, 2, 3))
     # L1: frequency_to_n(nvalue_to_frequency(n)) == n
     cons = []
     n = fl.int_var('n', -job.get('nmax', 4096), job.get('nmax', 4096), cons)
     back = tr.call(sa.frequency_to_n, [tr.call(sa.nvalue_to_frequency, [n])])
-    out.append((fl.decide('frequency_to_n(nvalue_to_frequency(n)) == n', cons, back[1] == n[1], tmo),
-                lambda m: sa.frequency_to_n(sa.nvalue_to_frequency(m['n'])) == m['n']))
+    if 1 in which:
+        out.append((fl.decide('frequency_to_n(nvalue_to_frequency(n)) == n', cons, back[1] == n[1], tmo),
+                    lambda m: sa.frequency_to_n(sa.nvalue_to_frequency(m['n'])) == m['n']))
     # L2: slots_to_m(mvalue_to_slots(n, m)) == (n, m)
     cons = []
     n = fl.int_var('n', -4096, 4096, cons)
     m = fl.int_var('m', 1, 512, cons)
     a, b = tr.call(sa.mvalue_to_slots, [n, m])
     n2, m2 = tr.call(sa.slots_to_m, [a, b])
-    out.append((fl.decide('slots_to_m(mvalue_to_slots(n, m)) == (n, m)', cons, z3.And(n2[1] == n[1], m2[1] == m[1]), tmo),
-                lambda mm: sa.slots_to_m(*sa.mvalue_to_slots(mm['n'], mm['m'])) == (mm['n'], mm['m'])))
+    if 2 in which:
+        out.append((fl.decide('slots_to_m(mvalue_to_slots(n, m)) == (n, m)', cons, z3.And(n2[1] == n[1], m2[1] == m[1]), tmo),
+                    lambda mm: sa.slots_to_m(*sa.mvalue_to_slots(mm['n'], mm['m'])) == (mm['n'], mm['m'])))
     # L3: m_to_freq gives the edges of the slot range: frequency_to_n(fstart) == n - m, frequency_to_n(fstop) == n + m
     cons = []
     n = fl.int_var('n', -2048, 2048, cons)
@@ -278,9 +281,10 @@ def fp_lemmas(job):
     fs, fe = tr.call(sa.m_to_freq, [n, m])
     s1 = tr.call(sa.frequency_to_n, [fs])
     s2 = tr.call(sa.frequency_to_n, [fe])
-    out.append((fl.decide('frequency_to_n(m_to_freq(n, m)) == (n - m, n + m)', cons, z3.And(s1[1] == n[1] - m[1], s2[1] == n[1] + m[1]), tmo),
-                lambda mm: (sa.frequency_to_n(sa.m_to_freq(mm['n'], mm['m'])[0]), sa.frequency_to_n(sa.m_to_freq(mm['n'], mm['m'])[1]))
-                == (mm['n'] - mm['m'], mm['n'] + mm['m'])))
+    if 3 in which:
+        out.append((fl.decide('frequency_to_n(m_to_freq(n, m)) == (n - m, n + m)', cons, z3.And(s1[1] == n[1] - m[1], s2[1] == n[1] + m[1]), tmo),
+                    lambda mm: (sa.frequency_to_n(sa.m_to_freq(mm['n'], mm['m'])[0]), sa.frequency_to_n(sa.m_to_freq(mm['n'], mm['m'])[1]))
+                    == (mm['n'] - mm['m'], mm['n'] + mm['m'])))
     res = dict(harness=job['name'], paths=0, forks=0, obligations=0, discharged=0, undecided=[], violations=[], witnesses_validated=0,
                samples=[], solver_s=0, functions=['gnpy/topology/spectrum_assignment.py:frequency_to_n', 'gnpy/topology/spectrum_assignment.py:nvalue_to_frequency',
                                                    'gnpy/topology/spectrum_assignment.py:slots_to_m', 'gnpy/topology/spectrum_assignment.py:mvalue_to_slots',
@@ -313,8 +317,8 @@ def fp_lemmas(job):
 
 
 def jobs(tier):
-    js = [dict(name='fp:index_frequency_conversions', kind='fp', fn='fp_lemmas', timeout_s=150 if tier == 'quick' else 600, cost=1000,
-               budget_s=400 if tier == 'quick' else 2000)]
+    js = [dict(name=f'fp:index_frequency_conversions:L{w}', kind='fp', fn='fp_lemmas', which=(w,), timeout_s=150 if tier == 'quick' else 600,
+               cost=1000, budget_s=300 if tier == 'quick' else 1500) for w in (1, 2, 3)]
     for n in ([2] if tier == 'quick' else [2, 3]):
         js.append(dict(name=f'H15a:align_grids:{n}oms', fn='h_align', params=dict(n_oms=n), witness_every=5, cost=100 * n))
     for shape in ('one_band_two_amps', 'two_bands', 'two_then_one'):
